@@ -670,3 +670,139 @@ func TestOutage(t *testing.T) {
 		Gen:  genOut, Run: runOut, HangAfter: 300 * time.Second,
 	})
 }
+
+// ---------------------------------------------------------------- concurrent allocation, then packet-filling bursts
+
+// AllocCase: histograms (value and duration flavour: bucket tag strings of very different
+// length) are allocated CONCURRENTLY under one shared tag set - the converted tag slice is shared
+// through the reporter's tag cache - and then every bucket is used to fill packets. A size that was
+// measured on a tag list another goroutine was writing to at the same time under-charges the bucket.
+type AllocCase struct {
+	Binary  bool `json:"binary"`
+	NTags   int  `json:"ntags"`   // 0..8: the shared tag set
+	Pairs   int  `json:"pairs"`   // goroutine pairs (one value, one duration histogram each)
+	Slack   int  `json:"slack"`
+	PerHist int  `json:"perhist"` // samples per bucket
+}
+
+func genAlloc(t *rapid.T) AllocCase {
+	return AllocCase{Binary: rapid.Bool().Draw(t, "binary"), NTags: rapid.IntRange(0, 8).Draw(t, "ntags"), Pairs: rapid.IntRange(2, 8).Draw(t, "pairs"),
+		Slack: rapid.SampledFrom([]int{0, 1, 7, 40}).Draw(t, "slack"), PerHist: rapid.IntRange(20, 60).Draw(t, "perhist")}
+}
+
+func runAlloc(c AllocCase) (pbt.Outcome, error) {
+	var errs pbt.Errs
+	var out pbt.Outcome
+	sink, err := udpsink.New()
+	if err != nil {
+		return out, fmt.Errorf("harness: %v", err)
+	}
+	defer sink.Close()
+	tags := map[string]string{}
+	for i := 0; i < c.NTags; i++ {
+		tags[fmt.Sprintf("k%d", i)] = strings.Repeat("v", i+1)
+	}
+	maxPacket := 1440 + c.Slack
+	var mu sync.Mutex
+	batches := 0
+	m3.VerifSetHooks(&m3.VerifHooks{NoteBatch: func(mets []m3thrift.Metric, ct []m3thrift.MetricTag, f, o int32) {
+		mu.Lock()
+		batches++
+		mu.Unlock()
+	}})
+	defer m3.VerifSetHooks(nil)
+	proto := m3.Compact
+	if c.Binary {
+		proto = m3.Binary
+	}
+	r, err := m3.NewReporter(m3.Options{HostPorts: []string{sink.Addr}, Service: "svc", Env: "test", Protocol: proto, MaxQueueSize: 4096, MaxPacketSizeBytes: int32(maxPacket)})
+	if err != nil {
+		return out, fmt.Errorf("harness: NewReporter: %v", err)
+	}
+	// bucket range strings of very different length: "1000000000000000.000000-2000000000000000.000000" vs "1ms-2ms"
+	vspec := tally.ValueBuckets{1e15, 2e15}
+	dspec := tally.DurationBuckets{time.Millisecond, 2 * time.Millisecond}
+	type hb struct {
+		name string
+		b    tally.CachedHistogramBucket
+	}
+	var all []hb
+	var amu sync.Mutex
+	var wg sync.WaitGroup
+	start := make(chan struct{})
+	for i := 0; i < c.Pairs; i++ {
+		i := i
+		wg.Add(2)
+		go func() {
+			defer wg.Done()
+			<-start
+			h := r.AllocateHistogram(fmt.Sprintf("hv%d", i), tags, vspec)
+			b := h.ValueBucket(1e15, 2e15)
+			amu.Lock()
+			all = append(all, hb{fmt.Sprintf("hv%d", i), b})
+			amu.Unlock()
+		}()
+		go func() {
+			defer wg.Done()
+			<-start
+			h := r.AllocateHistogram(fmt.Sprintf("hd%d", i), tags, dspec)
+			b := h.DurationBucket(time.Millisecond, 2*time.Millisecond)
+			amu.Lock()
+			all = append(all, hb{fmt.Sprintf("hd%d", i), b})
+			amu.Unlock()
+		}()
+	}
+	close(start)
+	wg.Wait()
+	want := map[string]int{}
+	for _, h := range all {
+		for k := 0; k < c.PerHist; k++ {
+			h.b.ReportSamples(math.MaxInt64)
+			want[h.name]++
+		}
+	}
+	r.Flush()
+	_ = r.Close()
+	mu.Lock()
+	nb := batches
+	mu.Unlock()
+	if !sink.WaitAll(nb) {
+		errs.Addf("%d batches emitted, %d datagrams arrived within 30s", nb, sink.Count())
+	}
+	got := map[string]int{}
+	near := false
+	grams := sink.Datagrams()
+	for gi, d := range grams {
+		if len(d) > maxPacket {
+			errs.Addf("datagram %d is %d bytes, MaxPacketSizeBytes is %d (binary=%v; histograms were allocated concurrently under one shared tag set of %d tags)", gi, len(d), maxPacket, c.Binary, c.NTags)
+		}
+		if len(d) > maxPacket-64 {
+			near = true
+		}
+		_, batch, err := m3h.Decode(c.Binary, d)
+		if err != nil {
+			errs.Addf("datagram %d does not decode: %v", gi, err)
+			continue
+		}
+		for _, m := range batch.Metrics {
+			if !m3h.IsInternal(m.Name) {
+				got[m.Name]++
+			}
+		}
+	}
+	for n, w := range want {
+		if got[n] != w {
+			errs.Addf("histogram %s: %d bucket samples reported, %d decoded", n, w, got[n])
+		}
+	}
+	out.NonTrivial = len(grams) >= 2 && near
+	return out, errs.Err()
+}
+
+func TestConcAlloc(t *testing.T) {
+	pbt.Main(t, pbt.Prop[AllocCase]{
+		ID: "C12", Name: "concalloc",
+		Rule: "concurrent allocation: 2..8 pairs of goroutines allocate a value and a duration histogram each, at the same time, under ONE shared tag set of 0..8 tags (the converted tags are shared through the reporter's tag cache; the two flavours have bucket tag strings of very different length), then every bucket reports 20..60 maximal sample counts so that packets fill; Compact/Binary, MaxPacketSizeBytes 1440 + slack. Oracle: every datagram <= MaxPacketSizeBytes and decodes, every sample arrives. Non-trivial: >=2 datagrams, one within 64 bytes of the limit. The allocation interleaving is the runtime's (replays retried).",
+		Gen:  genAlloc, Run: runAlloc, Retries: 30, HangAfter: 120 * time.Second,
+	})
+}
